@@ -31,8 +31,28 @@ def run(ctx):
         cfg = gen_cfg(rng, it)
         cfg["matcher"], cfg["m2o"] = "naive", False
         cfg.pop("dmetric", None); cfg.pop("dthr", None)
+        if it == "unmatched" and rng.random() < 0.2:
+            # chains of candidates at low thresholds: a prediction whose best reference is taken falls back to its second one
+            p, r = impl.chain_pair(rng)
+            cfg["mmetric"], cfg["mthr"] = rng.choice(["IOU", "DSC"]), rng.choice([0.05, 0.1, 0.2, 0.25])
         if it == "semantic":
             p, r = (p != 0).astype("uint8"), (r != 0).astype("uint8")
+        elif rng.random() < 0.3:
+            # label values at the top of the dtype on ONE side (the relabelling only rewrites the prediction, so the fresh labels
+            # of unmatched instances are numbered past the largest reference label: the two orientations stress different widths)
+            dt = rng.choice(["uint8", "uint16"])
+            top = int(np.iinfo(dt).max)
+            side = rng.choice(["ref", "pred", "both"])
+            def lift(a):
+                labs = [int(x) for x in np.unique(a) if x]
+                out = a.astype(dt)
+                for i, l in enumerate(sorted(labs, reverse=True)[:2]):
+                    out[a == l] = top - i
+                return out
+            p = lift(p) if side in ("pred", "both") else p.astype(dt)
+            r = lift(r) if side in ("ref", "both") else r.astype(dt)
+            if it == "matched":
+                p, r = (p, r) if side == "both" else (p.astype(dt), p.astype(dt) * 0 + np.where(r != 0, p, 0).astype(dt))
         try:
             ip, ir = (p, r) if it != "semantic" else pipeline.approximate(p, r, cfg.get("backend"))
             uniq = meta.unique_matching(cfg, ip, ir) and meta.unique_matching(cfg, ir, ip)
